@@ -78,13 +78,18 @@ N_BLOCKS_1 = {"quick": 48, "thorough": 96}
 N_BLOCKS_2 = {"quick": 16, "thorough": 32}
 
 UNIVERSE_DOC = [
-    "0: Tag(Term(label=a, name=n:a, definition=d), x)",
+    "0: Tag(Term(label=a, name=n:a, definition=d), x)   [x = 'caf\\u00e9' (NFC), y = 'cafe\\u0301' (NFD)]",
     "1: same term object, value y",
     "2: Term(label=a2, name=n:a) -- same name (same Term hash), other label; value x",
     "3: Term(label=a, name=n:b) -- same label, other name; value x",
     "4: freshly constructed Term and Tag equal to 0",
     "5: Term(label=a, name=n:a, definition=d2) -- differs from 0 in the definition only; value x (thorough)",
 ]
+
+
+# the two tag values of the universe are different strings that are canonically equivalent (NFC / NFD spelling of the same text):
+# different values are different tags whatever Unicode says about them
+VX, VY = "caf\u00e9", "cafe\u0301"
 
 
 def _term(which="A"):
@@ -107,12 +112,12 @@ def universe_ctx():
     if _CTX is None:
         tA = _term("A")
         uni = [
-            data.Tag(term=tA, value="x"),
-            data.Tag(term=tA, value="y"),
-            data.Tag(term=_term("A2"), value="x"),
-            data.Tag(term=_term("A3"), value="x"),
-            data.Tag(term=_term("A"), value="x"),
-            data.Tag(term=_term("A4"), value="x"),
+            data.Tag(term=tA, value=VX),
+            data.Tag(term=tA, value=VY),
+            data.Tag(term=_term("A2"), value=VX),
+            data.Tag(term=_term("A3"), value=VX),
+            data.Tag(term=_term("A"), value=VX),
+            data.Tag(term=_term("A4"), value=VX),
         ]
         eq = [[bool(a == b) for b in uni] for a in uni]
         pt = {}
@@ -474,7 +479,8 @@ SPECS = {
              # extra (undeclared) fields: one, and the same two given in both orders (equal terms, different dict order)
              "+extra": [("foo", lambda: {"foo": "bar"}), ("foo_baz", lambda: {"foo": "bar", "baz": "qux"}),
                         ("baz_foo", lambda: {"baz": "qux", "foo": "bar"})]},
-            **{f: [("z", lambda: "zz")] for f in _TERM_STR_FIELDS}),
+            **{f: [("z", lambda: "zz")] + ([("none", lambda: None)] if f in ("uri", "description") else [])  # explicit default
+               for f in _TERM_STR_FIELDS}),
     },
     "Tag": {
         "cls": data.Tag,
